@@ -648,13 +648,29 @@ def boundary_cases():
     return out
 
 
+REQUIRED_SEED = 909_2026        # own constant: NOT the run's seed
+
+
+def required_stream():
+    """A fixed-seed stream of ordinary generated cases (tag "req"), the same in every run and tier: together with
+    boundary_cases() it draws every kind / form / situation that sanity() requires, so that no requirement depends on
+    the run's seed."""
+    r = C.Rng(REQUIRED_SEED)
+    hist = [dict(gen_hist(r, "quick"), req=True) for _ in range(130)]
+    pts = gen_split_grid(r) + [gen_split_case(r) for _ in range(200)]
+    return hist + [{"k": "gen", "req": True, "pts": pts[i:i + BATCH]} for i in range(0, len(pts), BATCH)]
+
+
 BATCH = 10     # split-generator points per case (keeps the number of Coq case ids small)
 
 
 def generate(rng, tier):
-    nh, ng, batch = (650, 1700, BATCH) if tier == "quick" else (12000, 60000, 5 * BATCH)
-    cases = boundary_cases() + [gen_hist(rng, tier) for _ in range(nh)]
-    pts = gen_split_grid(rng) + [gen_split_case(rng) for _ in range(ng)]
+    nh, ng, batch = (520, 1500, BATCH) if tier == "quick" else (12000, 60000, 5 * BATCH)
+    # deterministic part (independent of the run's seed and tier): everything sanity() requires is drawn here
+    cases = boundary_cases() + required_stream()
+    # the run's seed only drives the additional random stream
+    cases += [gen_hist(rng, tier) for _ in range(nh)]
+    pts = [gen_split_case(rng) for _ in range(ng)]
     cases += [{"k": "gen", "pts": pts[i:i + batch]} for i in range(0, len(pts), batch)]
     if tier == "thorough":
         cases += exhaustive_small(rng)
@@ -1397,8 +1413,13 @@ def stats(cases, obss):
 
 
 def sanity(cases, obss):
-    """Fail-closed distribution check: a degenerate run must not report green."""
-    d = stats(cases, obss)
+    """Fail-closed distribution check: a degenerate run must not report green.  Every requirement is evaluated on
+    the DETERMINISTIC part of the run (boundary_cases() + required_stream(), tags "b" / "req"), which is the same under
+    every seed and tier; the run's seed only adds cases on top."""
+    det = [(c, o) for c, o in zip(cases, obss) if c is not None and o is not None and (c.get("b") or c.get("req"))]
+    if not det:
+        return ["the deterministic streams (boundary_cases, required_stream) are missing from the run"]
+    d = stats([c for c, _ in det], [o for _, o in det])
     probs = []
     if d["hist"] == 0 or d["gen"] == 0:
         return [f"histories={d['hist']} generator points={d['gen']}"]
